@@ -271,4 +271,19 @@ theorem C07_route_total (a : RouteArgs) (path : Text)
             | true => simp [hsk, hfb] at hcrash
             | false => simp [h1, h2, hsk, hfb, hfd] at hverify
 
+-- Non-vacuity.  The routing on concrete names of the generated tables (kernel-evaluated):
+example : (match route ⟨none, false, false, false, false, false, false⟩ "src/main.py".toList with
+    | .inFile s => s.name == "PythonCommentStyle" | _ => false) = true := by decide +kernel
+example : (match route ⟨none, false, false, false, false, false, false⟩ "logo.png".toList with
+    | .dotLicense s => s.name == "EmptyCommentStyle" | _ => false) = true := by decide +kernel
+example : (match route ⟨some "c", true, false, false, false, false, false⟩ "main.rs".toList with
+    | .dotLicense s => s.name == "CCommentStyle" | _ => false) = true := by decide +kernel
+example : (match route ⟨none, false, false, false, false, false, false⟩ "data.zzz".toList with
+    | .usage => true | _ => false) = true := by decide +kernel
+example : commentStyleName "MA\u212aEFILE".toList = some "PythonCommentStyle" := by decide +kernel
+-- The hypotheses of C07_guard / C07_never_success_without_readback / C07_file_partial (a successful
+-- `createNewHeader` / `annotateText`, `noIgnoreStart`, `tagsCompose`) involve the well-founded regex matcher,
+-- which `decide` does not unfold; the compiled driver evaluates them on every case of the streams `newheader`
+-- (several hundred successes per run), `annotate` and `filetie` (hypotheses hold on about a third of the cases).
+
 end C07
